@@ -191,6 +191,12 @@ func (r *Run) Do(keys []string) int {
 		sort.Strings(rep.Contracts)
 		reports = append(reports, rep)
 	}
+	// package-level scan (C04, isolation): no function other than init writes a package-level variable
+	if r.Prop == "C04" || r.Prop == "" {
+		for _, v := range r.W.globalWriteScan() {
+			all = append(all, v)
+		}
+	}
 	if r.Explain {
 		var ex []*Obligation
 		for _, o := range all {
@@ -275,4 +281,49 @@ func writeJSON(path string, v interface{}) error {
 	}
 	os.MkdirAll(filepath.Dir(path), 0755)
 	return os.WriteFile(path, append(b, '\n'), 0644)
+}
+
+// globalWriteScan returns one (already failed) obligation per store to package-level state outside init,
+// and one trivially true summary obligation when there is none.
+func (w *World) globalWriteScan() []*Obligation {
+	var out []*Obligation
+	scanned := 0
+	var keys []string
+	for k := range w.AllFns {
+		keys = append(keys, k)
+	}
+	sort.Strings(keys)
+	for _, k := range keys {
+		fn := w.AllFns[k]
+		if fn.Pkg != w.SPkg || strings.HasPrefix(fn.Name(), "init") || strings.HasPrefix(fn.Name(), "vc_") {
+			continue
+		}
+		scanned++
+		for _, b := range fn.Blocks {
+			for _, in := range b.Instrs {
+				st, ok := in.(*ssa.Store)
+				if !ok {
+					continue
+				}
+				v := st.Addr
+				for {
+					switch a := v.(type) {
+					case *ssa.FieldAddr:
+						v = a.X
+						continue
+					case *ssa.IndexAddr:
+						v = a.X
+						continue
+					}
+					break
+				}
+				if g, ok := v.(*ssa.Global); ok {
+					out = append(out, &Obligation{Name: fmt.Sprintf("global-write-scan/%s/%s", k, g.Name()), Kind: "scan", Func: k, Tags: []string{"C04"},
+						Pos: w.Fset.Position(st.Pos()), Guard: True(), Goal: False(), Expect: "unsat", Note: "store to package-level variable " + g.Name() + " outside init (breaks isolation of independent calls)", scanFail: true})
+				}
+			}
+		}
+	}
+	w.scanned = scanned
+	return out
 }
